@@ -87,3 +87,36 @@ impl<T> Drop for WriteGuard<'_, T> {
         emit(Event::Released { addr: self.1, write: true });
     }
 }
+
+// --- added with repair F14 (mutation mutex): the same wrapper for `std::sync::Mutex`, so that the
+// --- scheduler sees the mutex as a lock like any other (mode = write)
+pub struct Mutex<T>(std::sync::Mutex<T>);
+pub struct MutexGuard<'a, T>(Option<std::sync::MutexGuard<'a, T>>, usize);
+
+impl<T> Mutex<T> {
+    pub const fn new(t: T) -> Self {
+        Mutex(std::sync::Mutex::new(t))
+    }
+    pub fn lock(&self) -> LockResult<MutexGuard<'_, T>> {
+        let addr = &self.0 as *const _ as usize;
+        emit(Event::Request { addr, write: true });
+        let r = self.0.lock();
+        emit(Event::Acquired { addr, write: true });
+        match r {
+            Ok(g) => Ok(MutexGuard(Some(g), addr)),
+            Err(p) => Err(PoisonError::new(MutexGuard(Some(p.into_inner()), addr))),
+        }
+    }
+}
+impl<T> Deref for MutexGuard<'_, T> {
+    type Target = T;
+    fn deref(&self) -> &T {
+        self.0.as_ref().unwrap()
+    }
+}
+impl<T> Drop for MutexGuard<'_, T> {
+    fn drop(&mut self) {
+        self.0.take();
+        emit(Event::Released { addr: self.1, write: true });
+    }
+}
